@@ -21,11 +21,25 @@ def sh(cmd, **kw):
 
 
 def main():
-    # one mutant run at a time (shared scratch worktree and alt-harness build directory)
-    import fcntl
+    # a few runs side by side: each takes the first free SLOT (own scratch worktree, own copies of
+    # the harness crate, the Lean project and the evidence directory under work/alt-*-<slot>)
+    import fcntl, time
     os.makedirs("/tmp/lead", exist_ok=True)
-    lock = open("/tmp/lead/mutant.lock", "w")
-    fcntl.flock(lock, fcntl.LOCK_EX)
+    global WT
+    slot = None
+    while slot is None:
+        for k in range(int(os.environ.get("MUTANT_SLOTS", "4"))):
+            lock = open(f"/tmp/lead/mutant-{k}.lock", "w")
+            try:
+                fcntl.flock(lock, fcntl.LOCK_EX | fcntl.LOCK_NB)
+                slot = k
+                break
+            except OSError:
+                lock.close()
+        if slot is None:
+            time.sleep(5)
+    WT = f"/tmp/lead/mut-repo-{slot}"
+    os.environ["VERIF_ALT_TAG"] = str(slot)
     props = sys.argv[1].split(",")
     patch = os.path.abspath(sys.argv[2])
     tier = sys.argv[3] if len(sys.argv) > 3 else "quick"
